@@ -111,3 +111,86 @@ Example C09_example :
             ([], [(1, [100; 101])])
   = ([[1;1]; [2;2]], [(1, [100; 101]); (0, [1;1]); (0, [2;2])]).
 Proof. vm_compute. reflexivity. Qed.
+
+(* ---------------------------------------------------------------------------------------------------------------
+   The internal API, stated of the SOURCE: casbin/internal_enforcer.py is re-translated on every run into the program
+   [internal_gen] (coq/gen/InternalGen.v) of the language of IntLang.v; [irun E internal_gen IFUEL m l args] is the
+   interpreter's (result or exception, rule list afterwards, adapter calls, notifications) of calling method m.
+   InternalTie.v proves, for every configuration, rule list and arguments, that it computes Mgmt.v's i_add / i_add_many /
+   i_remove / i_remove_many / i_remove_filtered / i_remove_filtered_eff and the update steps - the functions the mirror
+   theorems above are about - including WHICH adapter call is issued and WHEN none is. *)
+From PyCasbin Require IntLang InternalTie.
+From PyCasbinGen Require InternalGen.
+
+Theorem C09_source_add : forall k s pt r,
+  IntLang.irun (InternalTie.env_of k s pt) InternalGen.internal_gen InternalTie.IFUEL InternalGen.im_add_policy
+    (get_store s pt) [IntLang.ARule r] =
+  let '(s', b, ac, wc) := i_add k s pt r in (Ok (IntLang.IVB b), get_store s' pt, ac, wc).
+Proof. exact InternalTie.src_i_add. Qed.
+Print Assumptions C09_source_add.
+
+Theorem C09_source_add_many : forall k s pt rs,
+  IntLang.irun (InternalTie.env_of k s pt) InternalGen.internal_gen InternalTie.IFUEL InternalGen.im_add_policies
+    (get_store s pt) [IntLang.ARules rs] =
+  let '(s', b, ac, wc) := i_add_many k s pt rs in (Ok (IntLang.IVB b), get_store s' pt, ac, wc).
+Proof. exact InternalTie.src_i_add_many. Qed.
+Print Assumptions C09_source_add_many.
+
+Theorem C09_source_remove : forall k s pt r,
+  IntLang.irun (InternalTie.env_of k s pt) InternalGen.internal_gen InternalTie.IFUEL InternalGen.im_remove_policy
+    (get_store s pt) [IntLang.ARule r] =
+  let '(s', b, ac, wc) := i_remove k s pt r in (Ok (IntLang.IVB b), get_store s' pt, ac, wc).
+Proof. exact InternalTie.src_i_remove. Qed.
+Print Assumptions C09_source_remove.
+
+Theorem C09_source_remove_many : forall k s pt rs,
+  IntLang.irun (InternalTie.env_of k s pt) InternalGen.internal_gen InternalTie.IFUEL InternalGen.im_remove_policies
+    (get_store s pt) [IntLang.ARules rs] =
+  let '(s', b, ac, wc) := i_remove_many k s pt rs in (Ok (IntLang.IVB b), get_store s' pt, ac, wc).
+Proof. exact InternalTie.src_i_remove_many. Qed.
+Print Assumptions C09_source_remove_many.
+
+Theorem C09_source_remove_filtered : forall k s pt i vs,
+  IntLang.irun (InternalTie.env_of k s pt) InternalGen.internal_gen InternalTie.IFUEL InternalGen.im_remove_filtered_policy
+    (get_store s pt) [IntLang.ANat i; IntLang.ANames vs] =
+  match i_remove_filtered k s pt i vs with
+  | Err c => (Err c, get_store s pt, [], [])
+  | Ok (s', b, ac, wc) => (Ok (IntLang.IVB b), get_store s' pt, ac, wc)
+  end.
+Proof. exact InternalTie.src_i_remove_filtered. Qed.
+Print Assumptions C09_source_remove_filtered.
+
+Theorem C09_source_update : forall k s o n,
+  IntLang.irun (InternalTie.env_of k s PT_P) InternalGen.internal_gen InternalTie.IFUEL InternalGen.im_update_policy
+    (m_p s) [IntLang.ARule o; IntLang.ARule n] =
+  match update_policy (prio_tok k PT_P) (m_p s) o n with
+  | Err c => (Err c, m_p s, [], [])
+  | Ok (l', b) =>
+      if negb b then (Ok (IntLang.IVB false), l', [], [])
+      else if use_adapter k s then (Ok (IntLang.IVB true), l', [AUpdate PT_P o n], notify k s (WUpdatePolicy o n) 3)
+      else (Ok (IntLang.IVB true), l', [], [])
+  end.
+Proof. exact InternalTie.src_update. Qed.
+Print Assumptions C09_source_update.
+
+Theorem C09_source_update_many : forall k s os ns,
+  IntLang.irun (InternalTie.env_of k s PT_P) InternalGen.internal_gen InternalTie.IFUEL InternalGen.im_update_policies
+    (m_p s) [IntLang.ARules os; IntLang.ARules ns] =
+  match update_policies (prio_tok k PT_P) (m_p s) os ns with
+  | Err c => (Err c, m_p s, [], [])
+  | Ok (l', b) =>
+      if negb b then (Ok (IntLang.IVB false), l', [], [])
+      else if use_adapter k s then (Ok (IntLang.IVB true), l', [AUpdateMany PT_P os ns], notify k s (WUpdatePolicies os ns) 3)
+      else (Ok (IntLang.IVB true), l', [], [])
+  end.
+Proof. exact InternalTie.src_update_many. Qed.
+Print Assumptions C09_source_update_many.
+
+Example C09_source_example :
+  IntLang.irun {| IntLang.ie_pt := 0; IntLang.ie_prio := None; IntLang.ie_prio_tok := None; IntLang.ie_adapter := true;
+                  IntLang.ie_auto_save := true; IntLang.ie_watcher := true; IntLang.ie_auto_notify := true;
+                  IntLang.ie_offers_ex := true; IntLang.ie_offers_upd := false |}
+       InternalGen.internal_gen InternalTie.IFUEL InternalGen.im_update_policy [[1000; 1001; 1002]]
+       [IntLang.ARule [1000; 1001; 1002]; IntLang.ARule [1003; 1001; 1002]] =
+  (Ok (IntLang.IVB true), [[1003; 1001; 1002]], [AUpdate 0 [1000; 1001; 1002] [1003; 1001; 1002]], [WUpdate]).
+Proof. exact InternalTie.isrc_example. Qed.
